@@ -270,6 +270,14 @@ def monitor (pid : String) (c0 a : List String) : String :=
                 | .w bs => (match Spec.ReplySyntax.parse bs with | some rs => rs.any (·.code == 552) | none => false)
                 | _ => false)
             then ["C06 a message within the limit was refused with 552"] else []) ++
+           -- `TAG=discard552`: the generator vouches that the only 552 of the conversation answers an over-limit chunk or message;
+           -- the transaction it belonged to is gone: no Rcpt and no Data until the next accepted MAIL command
+           (let is552 (e : Ev) : Bool := match e with
+                | .w bs => (match Spec.ReplySyntax.parse bs with | some rs => rs.any (·.code == 552) | none => false)
+                | _ => false
+            let rest := ((evs.dropWhile (fun e => !is552 e)).drop 1).takeWhile (fun e => match e with | .mail .. => false | _ => true)
+            if tag == "TAG=discard552" && rest.any (fun e => match e with | .rcpt .. => true | .dataBegin .. => true | _ => false)
+            then ["C06 the transaction was not discarded after its message was refused with 552"] else []) ++
            (if cfg.maxMsg > 0 && drecs.any (fun d => d.octets.length > cfg.maxMsg) then
               ["C06 the backend was handed more octets than the limit"] else []) ++
            (if cfg.maxMsg > 0 && evs.any (fun e => match e with | .mail _ _ o _ => o.size > cfg.maxMsg | _ => false) then
